@@ -158,6 +158,42 @@ func sameHunk(a, b ref.Hunk, rd val.Reading) string {
 
 func valsKeyDrop(vs []val.V, rd val.Reading) string { return valsKey(vs, rd, true) }
 
+// longStringPair reports whether a hunk replaces one string of more than n
+// bytes by another.
+func longStringPair(hs []ref.Hunk, n int) bool {
+	for _, h := range hs {
+		if len(h.Remove) == 1 && len(h.Add) == 1 {
+			x, ok1 := h.Remove[0].(string)
+			y, ok2 := h.Add[0].(string)
+			if ok1 && ok2 && len(x) > n && len(y) > n {
+				return true
+			}
+		}
+	}
+	return false
+}
+
+// hasLongString reports whether v holds a string of more than n bytes.
+func hasLongString(v val.V, n int) bool {
+	switch x := v.(type) {
+	case string:
+		return len(x) > n
+	case []val.V:
+		for _, e := range x {
+			if hasLongString(e, n) {
+				return true
+			}
+		}
+	case map[string]val.V:
+		for _, e := range x {
+			if hasLongString(e, n) {
+				return true
+			}
+		}
+	}
+	return false
+}
+
 var ansi = strings.NewReplacer("\x1b[0m", "", "\x1b[31m", "", "\x1b[32m", "")
 
 // readerTransitions replays the reader's line automaton over a rendered
@@ -234,13 +270,17 @@ func carrierCheck(mk func() jd.Diff, targets []string, wantB string, opts string
 			return nil, false, rec.Violated("hunk %d differs in %s after the text round trip: %s vs %s\ntext:\n%s", i, f, hs[i], hs2[i], text)
 		}
 	}
-	// Colour adds the three ANSI sequences and nothing else.
-	var coloured string
-	if msg, p := jdx.Guard(func() { coloured = d.Render(jd.COLOR) }); p {
-		return nil, false, rec.Violated("Render(COLOR) panicked: %s", msg)
-	}
-	if ansi.Replace(coloured) != text {
-		return nil, false, rec.Violated("colour rendering is not the plain rendering plus ANSI sequences\nplain:\n%q\ncolour:\n%q", text, coloured)
+	// Colour adds the three ANSI sequences and nothing else. (The colour
+	// renderer aligns the characters of a replaced string with a quadratic
+	// table; very long string pairs are left out of this leg.)
+	if !longStringPair(hs, 3000) {
+		var coloured string
+		if msg, p := jdx.Guard(func() { coloured = d.Render(jd.COLOR) }); p {
+			return nil, false, rec.Violated("Render(COLOR) panicked: %s", msg)
+		}
+		if ansi.Replace(coloured) != text {
+			return nil, false, rec.Violated("colour rendering is not the plain rendering plus ANSI sequences\nplain:\n%q\ncolour:\n%q", text, coloured)
+		}
 	}
 	// Identical effect on documents.
 	bothApplied := false
@@ -640,3 +680,86 @@ func init() { Register("C02", "diffs", checkC02A); Register("C02", "synthetic", 
 
 func TestC02Diffs(t *testing.T)     { RunRandom(t, "C02", "diffs", genC02A, checkC02A) }
 func TestC02Synthetic(t *testing.T) { RunRandom(t, "C02", "synthetic", genC02B, checkC02B) }
+
+// ---- CLI leg: a diff printed by `jd a b` and applied with `jd -p` turns a into b
+
+type CarrierCLICase struct {
+	A    string `json:"a"`
+	B    string `json:"b"`
+	Opts string `json:"opts"`
+	Bin  string `json:"bin"`
+}
+
+func checkC02CLI(c CarrierCLICase, r *rec.Rec) error {
+	if !haveCLI() {
+		return inconclusive{"jd binaries not built"}
+	}
+	av, err := val.Parse(c.A)
+	if err != nil {
+		return fmt.Errorf("bad case: %v", err)
+	}
+	bv, err := val.Parse(c.B)
+	if err != nil {
+		return fmt.Errorf("bad case: %v", err)
+	}
+	viol := rec.Violated
+	if ks := jdx.SetKeysOf(c.Opts); len(ks) >= 2 && permutedKeyTuples(ks, av, bv) {
+		viol = func(f string, a ...interface{}) error { return rec.Known("D21", f, a...) }
+	}
+	if containsMagic(av, bv) {
+		r.Class("skipped:magic-number")
+		return nil
+	}
+	dir, cleanup := caseDir()
+	defer cleanup()
+	writeFile(dir, "a", c.A)
+	writeFile(dir, "b", c.B)
+	flags := optFlags(c.Opts)
+	res := runCLI(c.Bin, append(append([]string{}, flags...), "a", "b"), nil, dir)
+	if err := cliTrouble(res); err != nil {
+		return err
+	}
+	desc := fmt.Sprintf("%s %s a b (a=%s b=%s)", c.Bin, strings.Join(flags, " "), c.A, c.B)
+	if res.Status != 0 && res.Status != 1 {
+		return viol("%s exits %d: %s", desc, res.Status, res.Stderr)
+	}
+	// what was printed is what the library renders
+	want := jdx.NodeText(c.A).Diff(jdx.NodeText(c.B), append(jdx.Options(c.Opts), jd.Precision(0))...).Render()
+	if res.Stdout != want {
+		return viol("%s prints\n%q\nthe library renders\n%q", desc, res.Stdout, want)
+	}
+	writeFile(dir, "d", res.Stdout)
+	resP := runCLI(c.Bin, append(append([]string{"-p"}, flags...), "d", "a"), nil, dir)
+	if err := cliTrouble(resP); err != nil {
+		return err
+	}
+	if resP.Status != 0 {
+		return viol("%s: the printed diff does not apply with -p (status %d): %s\ndiff:\n%s", desc, resP.Status, resP.Stderr, res.Stdout)
+	}
+	got, err := jd.ReadJsonString(resP.Stdout)
+	if err != nil {
+		return viol("%s: -p prints unreadable JSON %q", desc, resP.Stdout)
+	}
+	if !got.Equals(jdx.NodeText(c.B), jdx.Options(c.Opts)...) {
+		return viol("%s: the printed diff applied with -p gives %s, not b\ndiff:\n%s", desc, resP.Stdout, res.Stdout)
+	}
+	nontrivial := res.Status == 1 && (strings.Contains(res.Stdout, "\\") || strings.Contains(res.Stdout, "%") || strings.Count(res.Stdout, "@ ") >= 2)
+	r.Case(fmt.Sprintf("%v", c), nontrivial, "bin="+c.Bin, "opts="+c.Opts)
+	if nontrivial {
+		r.Sample(c)
+	}
+	return nil
+}
+
+func genC02CLI(t *rapid.T) CarrierCLICase {
+	pc := genPairCase(t, []string{"list", "list", "set", "mset", "setkeys:id"}, func(p *gen.Profile) {
+		p.Payload = true
+		p.NastyKeys = gen.Chance(t, "nasty", 40)
+		p.Big = 6
+	})
+	return CarrierCLICase{A: pc.A, B: pc.B, Opts: pc.Opts, Bin: gen.Pick(t, "bin", []string{"jd-v2", "jd-top"})}
+}
+
+func init() { Register("C02", "cli", checkC02CLI) }
+
+func TestC02CLI(t *testing.T) { RunRandom(t, "C02", "cli", genC02CLI, checkC02CLI) }
